@@ -85,6 +85,11 @@ class Gen:
         r = self.r
         alias, table = r.choice(scope)
         if depth <= 0 or r.random() < 0.35:
+            if r.random() < 0.05:
+                # decimals far below / above what a fixed number of decimal places holds, scaled back into sight (1.0, 1.2345678, 5.0)
+                self.features.add('expr:tiny-or-huge-decimal')
+                return r.choice(['(0.000000000000000001 * 1000000000000000000.0)', '(0.00000000000000012345678 * 10000000000000000.0)',
+                                 '(50000000000000000000.0 / 10000000000000000000.0)', '(0.0000000000000000000000025 * 1000000000000000000000000.0)'])
             return r.choice([self.num_col(alias, table), str(r.choice([0, 1, 2, 3, 10])), self.num_col(alias, table)])
         k = r.choice(['+', '-', '*', '/', '%', 'neg', 'paren', 'abs', 'coalesce', 'case', 'cast', 'len'])
         self.features.add('expr:' + k)
